@@ -1,1 +1,141 @@
-fn main(){}
+//! fakefmt — a scriptable stand-in for rustfmt (C15). Behaviour comes from $FAKEFMT_MODE:
+//!   echo                      read stdin, write it back, exit 0
+//!   exit:<code>:<nothing|half|all>   read stdin, write that much of it, exit <code>
+//!   signal:<KILL|SEGV|PIPE|ABRT>:<nothing|half>  read stdin, write part, kill self
+//!   badutf8                   read stdin, write it back with 0xFF bytes spliced in, exit 0
+//!   close-stdin:<code>        close stdin at once, exit <code> without output
+//!   never-read:<code>         never read stdin, wait 150 ms, exit <code>
+//!   never-read-flood:<code>   never read stdin, write 2 MiB to stdout, exit <code>
+//!   slow-reader               read stdin in small chunks with pauses, echo, exit 0
+//!   write-before-read         write 2 MiB of comment lines, then echo stdin, exit 0
+//!   real                      exec the real rustfmt with the same arguments
+use std::io::{Read, Write};
+
+fn part(input: &[u8], how: &str) -> Vec<u8> {
+    match how {
+        "nothing" => vec![],
+        "half" => {
+            // cut at a char boundary so that the text stays valid UTF-8
+            let mut n = input.len() / 2;
+            while n > 0 && (input[n] & 0xC0) == 0x80 {
+                n -= 1;
+            }
+            input[..n].to_vec()
+        }
+        _ => marked(input),
+    }
+}
+
+/// The "formatted" text: the input plus a token-neutral marker, so that the caller can tell
+/// whether the formatter's output or the unformatted fallback was used.
+fn marked(input: &[u8]) -> Vec<u8> {
+    let mut v = input.to_vec();
+    v.extend_from_slice(b"\n// fakefmt-was-here\n");
+    v
+}
+
+fn read_all() -> Vec<u8> {
+    let mut v = Vec::new();
+    let _ = std::io::stdin().read_to_end(&mut v);
+    v
+}
+
+fn write_out(data: &[u8]) {
+    let mut out = std::io::stdout();
+    let _ = out.write_all(data);
+    let _ = out.flush();
+}
+
+fn main() {
+    let mode = std::env::var("FAKEFMT_MODE").unwrap_or_else(|_| "echo".into());
+    let parts: Vec<&str> = mode.split(':').collect();
+    match parts[0] {
+        "echo" => {
+            let i = read_all();
+            write_out(&marked(&i));
+        }
+        "exit" => {
+            let code: i32 = parts[1].parse().unwrap_or(1);
+            let i = read_all();
+            write_out(&part(&i, parts.get(2).copied().unwrap_or("all")));
+            std::process::exit(code);
+        }
+        "signal" => {
+            let sig = match parts[1] {
+                "KILL" => libc::SIGKILL,
+                "SEGV" => libc::SIGSEGV,
+                "PIPE" => libc::SIGPIPE,
+                _ => libc::SIGABRT,
+            };
+            let i = read_all();
+            write_out(&part(&i, parts.get(2).copied().unwrap_or("nothing")));
+            unsafe {
+                libc::signal(sig, libc::SIG_DFL);
+                libc::raise(sig);
+            }
+            std::process::exit(99);
+        }
+        "badutf8" => {
+            let mut i = marked(&read_all());
+            let n = i.len() / 2;
+            i.insert(n, 0xFF);
+            i.push(0xC0);
+            write_out(&i);
+        }
+        "close-stdin" => {
+            unsafe {
+                libc::close(0);
+            }
+            std::process::exit(parts.get(1).and_then(|c| c.parse().ok()).unwrap_or(1));
+        }
+        "never-read" => {
+            std::thread::sleep(std::time::Duration::from_millis(150));
+            std::process::exit(parts.get(1).and_then(|c| c.parse().ok()).unwrap_or(1));
+        }
+        "never-read-flood" => {
+            let line = b"// flood flood flood flood flood flood flood flood flood flood\n";
+            let mut buf = Vec::new();
+            while buf.len() < 2 << 20 {
+                buf.extend_from_slice(line);
+            }
+            write_out(&buf);
+            std::process::exit(parts.get(1).and_then(|c| c.parse().ok()).unwrap_or(1));
+        }
+        "slow-reader" => {
+            let mut all = Vec::new();
+            let mut chunk = vec![0u8; 4096];
+            let mut stdin = std::io::stdin();
+            let mut n_reads = 0u32;
+            loop {
+                match stdin.read(&mut chunk) {
+                    Ok(0) | Err(_) => break,
+                    Ok(n) => all.extend_from_slice(&chunk[..n]),
+                }
+                n_reads += 1;
+                if n_reads % 16 == 0 && n_reads < 4000 {
+                    std::thread::sleep(std::time::Duration::from_micros(300));
+                }
+            }
+            write_out(&marked(&all));
+        }
+        "write-before-read" => {
+            let line = b"// written before stdin was read ..............................\n";
+            let mut buf = Vec::new();
+            while buf.len() < 2 << 20 {
+                buf.extend_from_slice(line);
+            }
+            write_out(&buf);
+            let i = read_all();
+            write_out(&marked(&i));
+        }
+        "real" => {
+            use std::os::unix::process::CommandExt;
+            let args: Vec<String> = std::env::args().skip(1).collect();
+            let real = std::env::var("FAKEFMT_REAL").unwrap_or_else(|_| "rustfmt".into());
+            let e = std::process::Command::new(real).args(args).exec();
+            eprintln!("fakefmt: exec failed: {e}");
+            std::process::exit(127);
+        }
+        _ => std::process::exit(64),
+    }
+}
